@@ -266,6 +266,36 @@ def run(ctx):
         check(ctx, lentil, c, spec[c['id']], rng2)
         ctx.case(c['id'], nontrivial=len(c['steps']) > 1 or c['steps'][0]['mask']['k'] != 'none')
     reuse_checks(ctx, lentil, rng)
+    # a wavefront that has met no sampled plane yet is one constant c on an unbounded plane (Optics!ConstPhasorTerms): its intensity is
+    # |c|^2 everywhere, so accumulating it into ANY array with a weight adds weight * |c|^2 to every sample
+    for _ in range(30):
+        a1, a2 = rng.choice((1, 0.5, 2)), rng.choice((1, 3, 0.25))
+        ph1 = rng.choice((0, 1, 5)) / 16.0
+        w = lentil.Wavefront(1e-6)
+        chain = rng.choice(('none', 'plane', 'plane-plane', 'tilt'))
+        if chain in ('plane', 'plane-plane'):
+            w = w * lentil.Plane(amplitude=a1, opd=ph1 * 1e-6)
+        if chain == 'plane-plane':
+            w = w * lentil.Plane(amplitude=a2)
+        if chain == 'tilt':
+            w = w * lentil.Tilt(x=1e-6, y=-2e-6)
+        c2 = {'none': 1.0, 'plane': a1 ** 2, 'plane-plane': (a1 * a2) ** 2, 'tilt': 1.0}[chain]
+        tshape = (rng.randint(1, 4), rng.randint(1, 5))
+        weight = rng.choice((1, 2.5, -1.0))
+        target = np.array([[float(rng.randint(-3, 3)) for _ in range(tshape[1])] for _ in range(tshape[0])])
+        t0 = target.copy()
+        ctx.case(('unbounded-wavefront-insert', chain, tshape, weight, a1, a2))
+        try:
+            inten = np.asarray(w.intensity)
+            r = w.insert(target, weight=weight)
+            ok = inten.size == 1 and abs(float(inten.ravel()[0]) - c2) <= 1e-12 and np.allclose(r, t0 + weight * c2, rtol=1e-12, atol=1e-12) \
+                and np.allclose(target, t0 + weight * c2, rtol=1e-12, atol=1e-12)
+            err = None
+        except Exception as ex:
+            ok, err = False, repr(ex)[:200]
+        if not ok:
+            ctx.violation({'kind': 'insert-of-unbounded-wavefront', 'chain': chain, 'raised': err is not None},
+                          {'target_shape': list(tshape), 'weight': weight, 'constant_intensity': c2, 'error': err}, case=None)
     # a plane with default attributes changes NOTHING: every public attribute of the wavefront, the descriptive ones too
     for cls in ('Plane', 'Pupil', 'Image', 'Tilt'):
         for wkw in (dict(), dict(pixelscale=0.5, focal_length=4.0), dict(pixelscale=(0.5, 0.25), diameter=2.0, focal_length=4.0, tilt=[1e-6, -2e-6])):
